@@ -167,7 +167,7 @@ func (p *Processor) ChargingDataCreate(
 
 	consumerId := chargingData.NfConsumerIdentification.NFName
 	if !chargingData.OneTimeEvent {
-		chargingSessionId = ueId + consumerId + strconv.Itoa(int(self.LocalRecordSequenceNumber))
+		chargingSessionId = ueId + consumerId + strconv.Itoa(int(self.NewLocalRecordSequenceNumber()))
 	}
 	cdr, err := p.OpenCDR(chargingData, ue, chargingSessionId, false)
 	if err != nil {
